@@ -37,7 +37,8 @@ starts from `Array.replicate n none`.
 `std::partition` and `std::nth_element` are not stable and the order they leave depends on the creation order of the
 slots and on the library.  **Choice made here**: the kept *set* is modelled, not the permutation.  The kept set is a
 function of the candidates whenever the cut does not fall between two candidates of equal `norm`
-(`ilutSelect`: with `b` the largest discarded candidate, exactly `cnt` candidates are strictly larger than `b`).
+(`ilutSelect`: with `b` the largest discarded candidate, exactly `cnt` candidates are strictly larger than `b`;
+it returns the kept and the cut candidates).
 When it does, which of the equal ones survives is implementation-defined: outcome `tie`; the harness recognises the
 same situation with its own dense recurrence and does not compare such cases.  Inside the kept set the columns are
 distinct, so `sort by_col` has one possible result: the kept candidates in increasing column order (the candidates
@@ -102,28 +103,39 @@ def ilutWork (P : IlutParams K) (n : Nat) (U : Array (Row K)) (D : Vec K) (i : N
   let w0 : IlutRow K := r.foldl (fun w cv => w.setIfInBounds cv.1 (some cv.2)) (Array.replicate n none)
   (List.range i).foldl (ilutPivot P.norm (ilutTol P i r) U D) w0
 
-/-- the slots with column in `cols` that pass `higher_than` (`norm(val) > tol`), by increasing column -/
-def ilutCands (norm : K → K) (tol : K) (w : IlutRow K) (cols : List Nat) : Row K :=
-  cols.filterMap (fun c => match w.getD c none with
-    | some v => if tol < norm v then some (c, v) else none
-    | none => none)
+/-- the entries `(c, v)`, `c = 0 .. m-1` in increasing order, for which `f c = some v` -/
+def ilutPick (f : Nat → Option K) (m : Nat) : Row K :=
+  (List.range m).filterMap (fun c => (f c).map (fun v => (c, v)))
 
 /-- insertion into a list ordered by decreasing `norm` -/
 def ilutInsert (norm : K → K) (e : Nat × K) : Row K → Row K
   | [] => [e]
   | x :: xs => if norm x.2 < norm e.2 then e :: x :: xs else x :: ilutInsert norm e xs
 
-/-- `nth_element(…, by_abs_val)` + `sort(…, by_col)` on the candidates of one side: the `cnt` candidates of largest
-`norm`, in column order; all of them when there are at most `cnt`; `none` when the cut falls inside a group of equal
-`norm` -/
-def ilutSelect (norm : K → K) (cnt : Nat) (cands : Row K) : Option (Row K) :=
-  if cands.length ≤ cnt then some cands
+/-- `nth_element(…, by_abs_val)` + `sort(…, by_col)` on the candidates of one side: (kept, cut) with kept = the `cnt`
+candidates of largest `norm`, both in column order; everything is kept when there are at most `cnt`; `none` when the
+cut falls inside a group of equal `norm` -/
+def ilutSelect (norm : K → K) (cnt : Nat) (cands : Row K) : Option (Row K × Row K) :=
+  if cands.length ≤ cnt then some (cands, [])
   else
     match (cands.foldr (ilutInsert norm) []).drop cnt with
-    | [] => some cands
+    | [] => some (cands, [])
     | b :: _ =>
-      let kept := cands.filter (fun e => decide (norm b.2 < norm e.2))
-      if kept.length = cnt then some kept else none
+      if (cands.filter (fun e => decide (norm b.2 < norm e.2))).length = cnt then
+        some (cands.filter (fun e => decide (norm b.2 < norm e.2)),
+              cands.filter (fun e => !(decide (norm b.2 < norm e.2))))
+      else none
+
+/-- what row `i` discards (ghost record, used by `Properties/C06d.lean` and the op `relax_ilut_drops` only) -/
+structure IlutDrop (K : Type) where
+  /-- multipliers `(c, l_c)`, `c < i`, with `norm(l_c) ≤ tol`: not applied in the elimination loop, not stored -/
+  skipped : Row K
+  /-- multipliers with `norm > tol` that **were applied** in the elimination loop but cut by the fill limit `lp` -/
+  cutL : Row K
+  /-- slots right of the diagonal that are not stored (`norm ≤ tol`, or cut by the fill limit `up`) -/
+  dropU : Row K
+
+def IlutDrop.isEmpty (d : IlutDrop K) : Bool := d.skipped.isEmpty && d.cutL.isEmpty && d.dropU.isEmpty
 
 /-- state of the constructor loop: finished rows of `L`, `U` and the inverted pivots -/
 structure IlutState (K : Type) where
@@ -131,19 +143,32 @@ structure IlutState (K : Type) where
   U : Array (Row K)
   D : Vec K
 
-/-- row `i` of the constructor -/
-def ilutRow (P : IlutParams K) (n : Nat) (S : IlutState K) (i : Nat) (r : Row K) : IlutOutcome (IlutState K) :=
+/-- row `i` of the constructor: the stored `L` row, the inverted pivot, the stored `U` row — and the discarded part -/
+def ilutRowFull (P : IlutParams K) (n : Nat) (U : Array (Row K)) (D : Vec K) (i : Nat) (r : Row K) :
+    IlutOutcome (Row K × K × Row K × IlutDrop K) :=
   let tol := ilutTol P i r
-  let w := ilutWork P n S.U S.D i r
+  let w := ilutWork P n U D i r
   match w.getD i none with
   | none => .undefinedInput
   | some d =>
     let lp := P.fill (r.countP (fun cv => decide (cv.1 < i)))
     let up := P.fill (r.countP (fun cv => decide (i < cv.1)))
-    match ilutSelect P.norm lp (ilutCands P.norm tol w (List.range i)),
-          ilutSelect P.norm (up - 1) (ilutCands P.norm tol w ((List.range n).filter (fun c => decide (i < c)))) with
-    | some l, some u => .ok { L := S.L.push l, U := S.U.push u, D := S.D.push (1 / d) }
+    -- `higher_than(tol, dia)` on the slots left / right of the diagonal
+    let big : K → Bool := fun v => decide (tol < P.norm v)
+    match ilutSelect P.norm lp (ilutPick (fun c => (w.getD c none).filter big) i),
+          ilutSelect P.norm (up - 1) (ilutPick (fun c => if i < c then (w.getD c none).filter big else none) n) with
+    | some (l, cl), some (u, cu) =>
+      .ok (l, 1 / d, u,
+           { skipped := ilutPick (fun c => (w.getD c none).filter (fun v => !(big v))) i,
+             cutL := cl,
+             dropU := ilutPick (fun c => if i < c then (w.getD c none).filter (fun v => !(big v)) else none) n ++ cu })
     | _, _ => .tie
+
+def ilutRow (P : IlutParams K) (n : Nat) (S : IlutState K) (i : Nat) (r : Row K) : IlutOutcome (IlutState K) :=
+  match ilutRowFull P n S.U S.D i r with
+  | .ok (l, d, u, _) => .ok { L := S.L.push l, U := S.U.push u, D := S.D.push d }
+  | .tie => .tie
+  | .undefinedInput => .undefinedInput
 
 def ilutLoop (P : IlutParams K) (A : CRS K) : List Nat → IlutState K → IlutOutcome (IlutState K)
   | [], S => .ok S
@@ -171,41 +196,15 @@ def ilut [DecidableEq K] (P : IlutParams K) (ω : K) : Smoother K (IluFactors K)
   applyPost F A f x t := iluSweep ω F A f x t
   apply F _ f := iluApply F f
 
-/-! ## Ghost record of what a row throws away (used by `Properties/C06d.lean` only) -/
+/-! ## The same run with the record of what every row throws away -/
 
-/-- what row `i` discards -/
-structure IlutDrop (K : Type) where
-  /-- multipliers `(c, l_c)`, `c < i`, with `norm(l_c) ≤ tol`: not applied in the elimination loop, not stored -/
-  skipped : Row K
-  /-- multipliers with `norm > tol` that **were applied** in the elimination loop but cut by the fill limit `lp` -/
-  cutL : Row K
-  /-- slots right of the diagonal that are not stored (`norm ≤ tol`, or cut by the fill limit `up`) -/
-  dropU : Row K
-
-def IlutDrop.isEmpty (d : IlutDrop K) : Bool := d.skipped.isEmpty && d.cutL.isEmpty && d.dropU.isEmpty
-
-/-- the slots with column in `cols`, whatever their size -/
-def ilutSlots (w : IlutRow K) (cols : List Nat) : Row K :=
-  cols.filterMap (fun c => (w.getD c none).map (fun v => (c, v)))
-
-/-- the discarded part of row `i`, given the kept rows `l`, `u` -/
-def ilutRowDrop (P : IlutParams K) (n : Nat) (S : IlutState K) (i : Nat) (r : Row K) (l u : Row K) : IlutDrop K :=
-  let tol := ilutTol P i r
-  let w := ilutWork P n S.U S.D i r
-  { skipped := (ilutSlots w (List.range i)).filter (fun e => !(decide (tol < P.norm e.2))),
-    cutL := (ilutCands P.norm tol w (List.range i)).filter (fun e => !(l.any (fun k => k.1 == e.1))),
-    dropU := (ilutSlots w ((List.range n).filter (fun c => decide (i < c)))).filter
-      (fun e => !(u.any (fun k => k.1 == e.1))) }
-
-/-- the row loop with the record: the state is advanced by `ilutRow` itself -/
+/-- the row loop with the record -/
 def ilutLoopT (P : IlutParams K) (A : CRS K) :
     List Nat → IlutState K → Array (IlutDrop K) → IlutOutcome (IlutState K × Array (IlutDrop K))
   | [], S, R => .ok (S, R)
   | i :: rest, S, R =>
-    match ilutRow P A.nrows S i (A.row i) with
-    | .ok S' =>
-      ilutLoopT P A rest S'
-        (R.push (ilutRowDrop P A.nrows S i (A.row i) (S'.L.getD i []) (S'.U.getD i [])))
+    match ilutRowFull P A.nrows S.U S.D i (A.row i) with
+    | .ok (l, d, u, dr) => ilutLoopT P A rest { L := S.L.push l, U := S.U.push u, D := S.D.push d } (R.push dr)
     | .tie => .tie
     | .undefinedInput => .undefinedInput
 
@@ -222,11 +221,13 @@ def ilutNoDropb (P : IlutParams K) (A : CRS K) : Bool :=
   | .ok (_, R) => R.all (fun d => d.isEmpty)
   | _ => false
 
-/-- number of discarded entries (for the driver: statistics / tags) -/
-def ilutDropCount (P : IlutParams K) (A : CRS K) : Option Nat :=
-  match ilutFactorT P A with
-  | .ok (_, R) => some (R.foldl (fun s d => s + d.skipped.length + d.cutL.length + d.dropU.length) 0)
-  | _ => none
+/-- the matrix of discarded contributions, entry `(i, j)`: a skipped multiplier `l_c` leaves `l_c · pivot_c` at column
+`c`; a multiplier that was applied and then cut by `lp` leaves `l_c · (pivot_c e_c + U_c)`; discarded upper entries
+leave themselves (`pivot_c = 1 / D_c`, `D` holding the inverted pivots) -/
+def ilutResid (F : IluFactors K) (R : Array (IlutDrop K)) (i j : Nat) : K :=
+  let d := R.getD i ⟨[], [], []⟩
+  rowGet d.skipped j * (1 / F.D.getD j 0) + rowGet d.cutL j * (1 / F.D.getD j 0)
+    + (List.range i).foldl (fun s c => s + rowGet d.cutL c * F.U.get c j) 0 + rowGet d.dropU j
 
 end Relax
 
